@@ -157,7 +157,8 @@ func c11Panic2Parent(c *core.Ctx, sc goxScenario, fine bool) {
 	switch {
 	case exit == 0 && strings.Contains(so.String(), "EXPLORED "):
 		return
-	case exit == 2 && strings.Contains(se.String(), "panic: ") && strings.Contains(se.String(), "goroutine "):
+	case exit == 2 && strings.Contains(se.String(), "panic: ") && strings.Contains(se.String(), "goroutine ") && strings.Contains(se.String(), "csvq/lib/query."):
+		// (the panicking goroutine's stack runs through csvq's code: a failure of the harness itself is not judged)
 		// the Go runtime ended the process: nothing deferred has run
 		var left []string
 		for n := range drv.DirSnapshot(dir) {
